@@ -302,6 +302,9 @@ class Facts:
         if isinstance(sym, tuple):
             if sym and sym[0] == 'place':
                 acc.add((sym[1], sym[2]))
+            elif sym and sym[0] == 'call':
+                # the result of a past call is a snapshot: later changes to its arguments do not change it
+                return acc
             else:
                 for x in sym:
                     if isinstance(x, tuple):
